@@ -10,7 +10,11 @@
 //     the same digest with another size / media type, the zero descriptor, an error), for digest
 //     and tag references (registryDimension);
 //   - required-metadata maps and signed annotations whose keys and values contain separators,
-//     are empty, or are re-splittings / concatenations of one another (metadataDimension).
+//     are empty, or are re-splittings / concatenations of one another (metadataDimension);
+//   - blobs that are long streams produced on the fly, of lengths next to the size caps of the tree
+//     (read from its sources) and the customary ones, up to 1 GiB + 1 (4 GiB + 47 in the thorough tier),
+//     with signatures made for the whole stream, for a proper prefix of it, and hybrids
+//     (streamDimension, stream.go).
 package c01
 
 import (
@@ -66,9 +70,14 @@ type Input struct {
 	RefDigest     *string     `json:"refDigest"`   // registry: the digest the reference pins; null = a tag reference
 	ResolveOk     bool        `json:"resolveOk"`   // registry: Repository.Resolve answers with a descriptor (Artifact), not an error
 	// concretisation only (ignored by the model, theorem concretisation_irrelevant):
-	Reader  string `json:"reader"`  // blob: how the reader delivers the bytes ("bytes", "dataEOF", "oneByte", "half", "chunksEOF")
+	Reader  string `json:"reader"`  // blob: how the reader delivers the bytes ("bytes", "dataEOF", "oneByte", "half", "chunksEOF", "stream")
 	Plugin  bool   `json:"plugin"`  // the signature names an installed verification plugin that owns the identity check and approves
 	RefForm string `json:"refForm"` // registry: the repository part of the reference as spelled by the caller
+	// blob: the number of bytes the reader delivers before io.EOF (Artifact is the descriptor of ALL of them, hashed
+	// and counted by the harness itself), and the size cap next to which that number was chosen (0 = none); both
+	// ignored by the model (theorem blob_length_irrelevant)
+	BlobLen  int64 `json:"blobLen"`
+	Boundary int64 `json:"boundary"`
 }
 
 type Obs struct {
@@ -906,6 +915,23 @@ func runOCI(w *world, e envCase, lv levelCase, artifact ocispec.Descriptor, req 
 }
 
 func runBlob(w *world, e envCase, lv levelCase, blob []byte, mediaType string, req [][2]string, reader string) (Input, Obs) {
+	src := blobSource{open: func() io.Reader { return readerFor(reader, blob) }, digest: string(digest.FromBytes(blob)), size: int64(len(blob)),
+		reader: reader, twice: true}
+	return runBlobFrom(w, e, lv, src, mediaType, req)
+}
+
+// blobSource: a blob as the caller of notation.VerifyBlob holds it - something that can be read once from the
+// beginning to the end - together with what the harness knows about it by its own route
+type blobSource struct {
+	open     func() io.Reader // a fresh reader over the whole blob
+	digest   string           // the sha256 digest of ALL its bytes (all keys of this harness are P-256: SHA-256)
+	size     int64            // the number of ALL its bytes
+	reader   string           // label of the way of delivering
+	boundary int64            // the size cap next to which size was chosen (0 = none)
+	twice    bool             // first a verification whose result is discarded, with the same options value and verifier
+}
+
+func runBlobFrom(w *world, e envCase, lv levelCase, src blobSource, mediaType string, req [][2]string) (Input, Obs) {
 	store := common.NewMemStore()
 	if lv.trusted {
 		store.Certs["ca:c01"] = []*x509.Certificate{w.chain.Root().Cert}
@@ -938,9 +964,11 @@ func runBlob(w *world, e envCase, lv levelCase, blob []byte, mediaType string, r
 	bopts := notation.VerifyBlobOptions{
 		BlobVerifierVerifyOptions: notation.BlobVerifierVerifyOptions{SignatureMediaType: e.format, UserMetadata: um, TrustPolicyName: "c01"},
 		ContentMediaType:          mediaType}
-	// first a verification whose result is discarded, with the same options value and verifier
-	notation.VerifyBlob(context.Background(), &recBlobVerifier{inner: v}, readerFor(reader, blob), e.bytes, bopts)
-	desc, _, verr := notation.VerifyBlob(context.Background(), rec, readerFor(reader, blob), e.bytes, bopts)
+	if src.twice {
+		// first a verification whose result is discarded, with the same options value and verifier
+		notation.VerifyBlob(context.Background(), &recBlobVerifier{inner: v}, src.open(), e.bytes, bopts)
+	}
+	desc, _, verr := notation.VerifyBlob(context.Background(), rec, src.open(), e.bytes, bopts)
 	if len(um) != len(req) {
 		verr = nil // the caller's map was modified: flagged through an impossible acceptance
 	}
@@ -949,8 +977,9 @@ func runBlob(w *world, e envCase, lv levelCase, blob []byte, mediaType string, r
 	}
 	// the blob descriptor as the generator computes it: the hash is bound to the signature algorithm;
 	// all keys of this harness are P-256 (SHA-256)
-	art := Desc{MediaType: mediaType, Digest: string(digest.FromBytes(blob)), Size: int64(len(blob)), Annotations: [][2]string{}}
-	in := Input{Kind: "blob", Skip: lv.skip, Rest: lv.rest(e.signer), Artifact: art, HashSupported: true, Required: req, Reader: reader, Plugin: e.plugin, ResolveOk: true}
+	art := Desc{MediaType: mediaType, Digest: src.digest, Size: src.size, Annotations: [][2]string{}}
+	in := Input{Kind: "blob", Skip: lv.skip, Rest: lv.rest(e.signer), Artifact: art, HashSupported: true, Required: req, Reader: src.reader, Plugin: e.plugin, ResolveOk: true,
+		BlobLen: src.size, Boundary: src.boundary}
 	in.ParseOk, in.IntegrityOk, in.PayloadTypeOk, in.Decoded, _ = facts(e.bytes, e.format)
 	o := Obs{Accepted: verr == nil}
 	if rec.outcome != nil {
@@ -1307,6 +1336,12 @@ func Run(c *common.Ctx) error {
 		return e.label == "mutated" || strings.Contains(e.label, "header/cty ") || strings.HasPrefix(e.label, "fresh/same-content-") || strings.HasPrefix(e.label, "fresh/other-content-") ||
 			e.label == "fresh/same-hex-as-sha512" || e.label == "fresh/empty-digest"
 	}
+	emit := func(e envCase, in Input, o Obs) {
+		c.Emit(in, o)
+		count(e, in, o)
+	}
+	// long streams next to size caps: started now, in the background (hashing takes seconds), emitted at the end
+	waitStreams := w.streamDimension(c, lvs, emit)
 	// OCI
 	ociEnvs := w.envelopes(c, w.art, w.manifest)
 	for _, e := range ociEnvs {
@@ -1341,10 +1376,6 @@ func Run(c *common.Ctx) error {
 		}
 	}
 	// the registry entry point with repositories that answer something else than the reference names
-	emit := func(e envCase, in Input, o Obs) {
-		c.Emit(in, o)
-		count(e, in, o)
-	}
 	w.registryDimension(c, ociEnvs, lvs, emit)
 	// separator-rich required metadata and signed annotations
 	w.metadataDimension(c, lvs, emit)
@@ -1379,6 +1410,7 @@ func Run(c *common.Ctx) error {
 			count(e, in, o)
 		}
 	}
+	waitStreams()
 	c.Note("envelope pool: freshly signed JWS/COSE for the exact target and 19 target variants (incl. the same / another content named by sha384 / sha512 digests, the same hexadecimal text under another algorithm name, an empty digest), COSE payload oddities (alternative spelling, duplicate keys, null, non-JSON, extra field), wrong content type, JWS re-assembled from parts of two valid envelopes, wrong format, random byte mutations; crossed with 9 level/trust cases (incl. customised levels and skip), 6 required-metadata maps, OCI descriptors and blobs (3 caller media types, another blob). Envelope facts come from notation-core-go / encoding/json called directly")
 	c.Note("registry dimension: notation.Verify with 6 references (tag through a caller's Verifier; digest references sha256/sha384/sha512 of the artifact, sha256 of another manifest) x 13 Resolve answers (the artifact / another manifest under each algorithm, the same hexadecimal text under another algorithm's name, the same digest with another size / media type, empty digest, zero descriptor, error) x envelopes signed for each of these answers x levels; 3 spellings of the repository")
 	c.Note("metadata dimension: 6 signed annotation sets with separators / empty keys and values / concatenations, each with the required maps derived from it (re-splitting key<sep>value for 12 separators incl. none, swapping, emptying, case, white space, truncation, extension, two signed pairs joined), plus random sets over a 6-letter alphabet; OCI direct, OCI through notation.Verify, blob; JWS and COSE")
